@@ -33,7 +33,7 @@ META = {
                   "generated histories; the metamorphic form oracle runs on the real realizer.",
     "level_note": "Trusted: Lean kernel; the store model of Model/Heap* (tied by correspondence only); realization-time writes "
                   "to shared records (cpReal, decline of pronouns, passive) are covered by the oracle, not by theorems; "
-                  "French 'quelques' and setPengRecursive are outside the modelled fragment.",
+                  "setPengRecursive is outside the modelled fragment.",
     "rule": "generated NP / S / SP / VP / subj-det-mod-comp-coord structures in both languages, lexical items from the whole "
             "lexicons stratified by gender (m/f/x/none) x regular/invariable/always-plural, features on any node, late options "
             "in every order for <= 4 options (sampled beyond), dynamic add() bottom-up/top-down; non-trivial = a history whose "
@@ -66,6 +66,7 @@ def _fixed_jobs(rng, tier):
             for k in kids[:-1]:
                 if k["k"] == "D":
                     g.rel(k, n, "det")
+            g.rel(n, kids[-2], "plural", feats=["n"])        # `quelques` makes the noun plural
             return g.P("NP", kids)
         jobs.append(tree_job("fr", "phrase", b, tags=["quelques"]))
 
@@ -230,9 +231,6 @@ def run_parallel(jobs):
 
 # ------------------------------------------------------------------------------------------------- signatures
 
-INCIDENTAL_UNDER_COORD_VP = True
-
-
 def signature(job, fail):
     r = fail["rel"]
     lang, notation = job["lang"], job["notation"]
@@ -242,8 +240,9 @@ def signature(job, fail):
     if fail.get("desync"):
         return "desync|%s|%s|%s.%s:own≠record|dep=%s" % (lang, notation, ctrlk, "+".join(fail["desync"]), r["kind"])
     tags = list(r["tags"])
-    if "coord-vp" in tags:
-        tags = ["coord-vp"]      # inside coordinated VPs nothing but the verb is linked: the other tags are incidental
+    if "coord-vp" in tags and ctrlk == "CP" and fail.get("ctrl_n_before") is None:
+        # the subject coordination had no number when the coordinated VPs were realized (S.real sets the default after)
+        return "late-number|%s|%s|%s|coord-vp|CP-subject-without-number" % (lang, notation, r["kind"])
     return "form|%s|%s|%s|%s|%s<-%s" % (lang, notation, r["kind"], "+".join(tags), depk, ctrlk)
 
 
